@@ -651,8 +651,228 @@ def correspondence(rng, tier):
     return [cs, kl]
 
 
+# ------------------------------------------------------------------- probes
+def _close(a, b, rtol, atol):
+    return all(len(u) == len(v) and np.allclose(u, v, rtol=rtol, atol=atol, equal_nan=False) for u, v in zip(a, b)) \
+        and len(a) == len(b)
+
+
+def probe_ops(seed, tier):
+    """Deterministic list [(key, description, P, x)] of the model-free probe: all builders on the
+    correspondence spaces (fresh inputs), the leaf/group builders on large and float32 spaces, and
+    classes outside the model (nuclear norm, Lambert-W, product-space Huber is excluded: it raises)."""
+    import random
+    import odl
+    S = odl.solvers
+    rng = random.Random('C10-probe-%d' % seed)
+    out = []
+    for nm, P, mk, sp in all_builders(rng, tier):
+        key = 'alias:' + (nm if nm != 'tree' else 'tree-' + type(P).__name__)
+        out.append((key, nm, P, sp.element(mk())))
+    big = [odl.rn(150), odl.uniform_discr(0, 1, 128), odl.rn(7, dtype='float32'), odl.uniform_discr([0, 0], [1, 1], (12, 11)),
+           odl.rn(5000)]
+    if tier != 'quick':
+        big += [odl.rn(60000), odl.uniform_discr(0, 1, 300, dtype='float32'), odl.rn((40, 30))]
+    for sp in big:
+        for nm, P, mk in leaf_builders(rng, sp, sqrt_free=True):
+            out.append(('alias-large:' + nm, '%s on %r' % (nm, sp), P, rnd_el(rng, sp)))
+        for g in (None, rnd_el(rng, sp)):
+            gn = 'g' if g is not None else 'nog'
+            sig = rng.choice(DY)
+            out.append(('alias-large:l2-' + gn, 'l2 on %r' % sp, S.proximal_l2(sp, lam=rng.choice(DY), g=g)(sig), rnd_el(rng, sp)))
+            out.append(('alias-large:ccl2-' + gn, 'ccl2 on %r' % sp, S.proximal_convex_conj_l2(sp, g=g)(sig), rnd_el(rng, sp)))
+            gp = None if g is None else rnd_el(rng, sp, pos=True)
+            out.append(('alias-large:cckl-' + gn, 'cckl on %r' % sp, S.proximal_convex_conj_kl(sp, lam=rng.choice(DY), g=gp)(sig),
+                        rnd_el(rng, sp, pos=True)))
+            out.append(('alias-large:ccklce-' + gn, 'ccklce on %r' % sp,
+                        S.proximal_convex_conj_kl_cross_entropy(sp, lam=rng.choice(DY), g=gp)(sig), rnd_el(rng, sp)))
+            out.append(('alias-large:kl-' + gn, 'KL.proximal on %r' % sp, S.KullbackLeibler(sp, prior=gp).proximal(sig),
+                        rnd_el(rng, sp, pos=True)))
+            out.append(('alias-large:klce-' + gn, 'KLCrossEntropy.proximal on %r' % sp,
+                        S.KullbackLeiblerCrossEntropy(sp, prior=gp).proximal(sig), rnd_el(rng, sp)))
+    for base in (odl.rn(6), odl.uniform_discr([0, 0], [1, 1], (5, 4)), odl.rn(120)):
+        for k in (1, 2, 3):
+            ps = odl.ProductSpace(base, k)
+            for nm, P, mk in group_builders(rng, ps):
+                out.append(('alias-large:' + nm, '%s on %r' % (nm, ps), P, rnd_el(rng, ps)))
+            for nm, f in (('groupL1', S.GroupL1Norm(ps)), ('groupL1ball', S.IndicatorGroupL1UnitBall(ps))):
+                y = rnd_el(rng, ps)
+                for vn, fv in ((nm, f), (nm + '-translated', f.translated(y)), (nm + '-conj', f.convex_conj),
+                               (nm + '-rightscal', f * 2.0), (nm + '-quadperturb', S.FunctionalQuadraticPerturb(f, 0.5, y))):
+                    out.append(('alias-large:F:' + vn, '%s on %r' % (vn, ps), fv.proximal(rng.choice(DY)), rnd_el(rng, ps)))
+    # nuclear norm (SVD; out-of-place only class -> default in-place bridge)
+    for exps in ((1, 1), (1, 2), (1, np.inf)):
+        sp2 = odl.ProductSpace(odl.ProductSpace(odl.rn(4), 2), 3)
+        f = S.NuclearNorm(sp2, outer_exp=exps[0], singular_vector_exp=exps[1])
+        out.append(('alias:nuclear-%s' % (exps[1],), 'NuclearNorm.proximal', f.proximal(rng.choice(DY)), rnd_el(rng, sp2)))
+        out.append(('alias:nuclear-conj-%s' % (exps[1],), 'NuclearNorm.convex_conj.proximal', f.convex_conj.proximal(rng.choice(DY)),
+                    rnd_el(rng, sp2)))
+    return out
+
+
+def eval_probe(P, x):
+    import odl
+    flt32 = getattr(P.domain, 'dtype', None) == np.dtype('float32') or \
+        (isinstance(P.domain, odl.ProductSpace) and getattr(P.domain[0], 'dtype', None) == np.dtype('float32'))
+    rtol, atol = (2e-4, 2e-5) if flt32 else (1e-9, 1e-11)
+    oop, al, sep, intact, proto = observe(P, x)
+    if not (finite(oop)):
+        return True, 'nonfinite reference', None, None
+    ok = _close(al, oop, rtol, atol) and _close(sep, oop, rtol, atol) and intact and proto
+    return ok, None, al, oop
+
+
+def replay_probe(seed, tier, index):
+    key, desc, P, x = probe_ops(seed, tier)[index]
+    ok, note, observed, expected = eval_probe(P, x)
+    return ok, observed, expected
+
+
+class _Unalias(object):
+    """prox factory wrapper: the returned operator never sees x is out"""
+
+    def __init__(self, f):
+        self.f = f
+
+    def proximal_factory(self):
+        import odl
+        inner = self.f.proximal
+
+        def factory(sigma):
+            P = inner(sigma)
+
+            class Safe(odl.Operator):
+                def __init__(self):
+                    super(Safe, self).__init__(P.domain, P.range, linear=False)
+
+                def _call(self, x, out):
+                    out.assign(P(x.copy()))
+            return Safe()
+        return factory
+
+
+def _unaliased(f):
+    """functional with the same values/gradients whose proximal (and conjugate proximal) copy their input"""
+    import odl
+
+    class G(odl.solvers.Functional):
+        def __init__(self, f):
+            super(G, self).__init__(f.domain, linear=False, grad_lipschitz=f.grad_lipschitz)
+            self.f = f
+
+        def _call(self, x):
+            return self.f(x)
+
+        @property
+        def gradient(self):
+            return self.f.gradient
+
+        @property
+        def proximal(self):
+            return _Unalias(self.f).proximal_factory()
+
+        @property
+        def convex_conj(self):
+            return G(self.f.convex_conj)
+    return G(f)
+
+
+def solver_runs(seed, tier):
+    """[(key, what, run)] with run(f_wrap) -> final iterates; each shipped solver that calls a proximal with
+    out aliased to its argument, run once with the functionals as they are and once with copies-on-entry."""
+    import random
+    import odl
+    S = odl.solvers
+    rng = random.Random('C10-solver-%d' % seed)
+    out = []
+    sp = odl.rn(4)
+    ps = odl.ProductSpace(odl.rn(3), 2)
+    A = odl.MatrixOperator(np.array([[1, 2, 0, -1], [0, 1, 1, 0], [2, 0, -1, 1], [1, 1, 1, 1.]]) / 4.0)
+    d = sp.element([1, -2, 3, 0.5])
+    fs = {'L1': lambda s: S.L1Norm(s), 'L1-translated': lambda s: S.L1Norm(s).translated(rnd_el(rng, s)),
+          'L2': lambda s: S.L2Norm(s), 'L2sq-translated': lambda s: S.L2NormSquared(s).translated(rnd_el(rng, s)),
+          'Linf': lambda s: S.LpNorm(s, np.inf), 'box': lambda s: S.IndicatorBox(s, -1, 2),
+          'L1-quadperturb': lambda s: S.FunctionalQuadraticPerturb(S.L1Norm(s), 0.5, rnd_el(rng, s)),
+          'huber': lambda s: S.Huber(s, 0.5), 'ballL1': lambda s: S.IndicatorLpUnitBall(s, 1),
+          'L1-scaled': lambda s: 2.0 * S.L1Norm(s) * 0.5, 'KL': lambda s: S.KullbackLeibler(s, prior=rnd_el(rng, s, pos=True))}
+    niter = 4 if tier == 'quick' else 12
+    for nm, mkf in sorted(fs.items()):
+        f = mkf(sp)
+        g = S.L2NormSquared(sp).translated(d)
+        x0 = rnd_el(rng, sp, pos=True)
+
+        def admm(w, f=f, g=g, x0=x0):
+            x = x0.copy()
+            S.admm_linearized(x, w(f), g, A, tau=0.5, sigma=1.0, niter=niter)
+            return [x]
+        out.append(('solver:admm_linearized-f=' + nm, 'admm_linearized prox_tau_f(x, out=x)', admm))
+
+        def pdca(w, f=f, x0=x0):
+            x = x0.copy()
+            S.prox_dca(x, w(f), S.L2NormSquared(sp) * 0.5, niter=niter, gamma=0.5)
+            return [x]
+        out.append(('solver:prox_dca-f=' + nm, 'prox_dca f.proximal(gamma)(x.lincomb(...), out=x)', pdca))
+
+        def dpdc(w, f=f, x0=x0):
+            x = x0.copy()
+            y = sp.zero()
+            S.doubleprox_dc(x, y, w(f), S.L2NormSquared(sp) * 0.25, w(S.L1Norm(sp)), A, niter=niter, gamma=0.5, mu=0.5)
+            return [x, y]
+        out.append(('solver:doubleprox_dc-f=' + nm, 'doubleprox_dc both aliased proximal calls', dpdc))
+
+        def drpd(w, f=f, x0=x0):
+            x = x0.copy()
+            S.douglas_rachford_pd(x, w(f), [w(S.L1Norm(sp)), w(g)], [A, odl.IdentityOperator(sp)], tau=0.5, sigma=[0.5, 0.5],
+                                  niter=niter)
+            return [x]
+        out.append(('solver:douglas_rachford_pd-f=' + nm, 'douglas_rachford_pd prox_cc_g[i](sigma[i])(p2[i], out=p2[i])', drpd))
+    for nm, mkf in (('groupL1', lambda s: S.GroupL1Norm(s)), ('groupL1-translated', lambda s: S.GroupL1Norm(s).translated(rnd_el(rng, s))),
+                    ('sepsum', lambda s: S.SeparableSum(S.L1Norm(s[0]), S.L2Norm(s[1])))):
+        f = mkf(ps)
+        x0 = rnd_el(rng, ps)
+        I = odl.IdentityOperator(ps)
+
+        def admm2(w, f=f, x0=x0):
+            x = x0.copy()
+            S.admm_linearized(x, w(f), S.L2NormSquared(ps), I, tau=0.5, sigma=1.0, niter=niter)
+            return [x]
+        out.append(('solver:admm_linearized-f=' + nm, 'admm_linearized on a product space', admm2))
+
+        def pdca2(w, f=f, x0=x0):
+            x = x0.copy()
+            S.prox_dca(x, w(f), S.L2NormSquared(ps) * 0.5, niter=niter, gamma=0.5)
+            return [x]
+        out.append(('solver:prox_dca-f=' + nm, 'prox_dca on a product space', pdca2))
+    return out
+
+
+def replay_solver(seed, tier, index):
+    key, what, run = solver_runs(seed, tier)[index]
+    a = [v for el in run(lambda f: f) for v in vals(el)]
+    b = [v for el in run(_unaliased) for v in vals(el)]
+    return _close(a, b, 1e-9, 1e-11), a, b
+
+
 def probes(rng, tier):
-    return []
+    out = []
+    seed = rng.randrange(2 ** 30)
+    for idx, (key, desc, P, x) in enumerate(probe_ops(seed, tier)):
+        try:
+            ok, note, observed, expected = eval_probe(P, x)
+        except Exception as e:
+            ok, note = False, 'raised %r' % (e,)
+        rp = ("import sys\nsys.path.insert(0, %r)\nfrom harness import c10\n"
+              "ok, observed, expected = c10.replay_probe(%d, %r, %d)\n" % (C.VERIF, seed, tier, idx))
+        out.append(C.Probe(ok, key, 'P(y, out=y) and P(x, out=z) equal P(x), x untouched: %s' % desc, rp, note))
+    for idx, (key, what, run) in enumerate(solver_runs(seed, tier)):
+        try:
+            ok, a, b = replay_solver(seed, tier, idx)
+        except Exception as e:
+            ok = False
+        rp = ("import sys\nsys.path.insert(0, %r)\nfrom harness import c10\n"
+              "ok, observed, expected = c10.replay_solver(%d, %r, %d)\n" % (C.VERIF, seed, tier, idx))
+        out.append(C.Probe(ok, key, 'same iterates with proximals that copy their input first: ' + what, rp))
+    return out
 
 
 def _FDCC():
